@@ -99,8 +99,11 @@ VerifyOK(e) ==
   /\ e.kind = "honest" => e.ok
   /\ e.kind \in {"bitflip", "othermsg", "s+L", "otherkey", "unmarked"} => ~e.ok
 
+\* e.reuse: decoding the same bytes into a long-lived, previously used receiver gave the same outcome, encoding and
+\* derived public key as the fresh object
 DecodeOK(e) ==
   LET b == e.in IN
+  e.reuse /\
   CASE e.kind = "pub" -> e.ok = PubDecodes(b) /\ (e.ok => e.out = b)
     [] e.kind = "sig" -> e.ok = SigDecodes(b) /\ (e.ok => e.out = b)
     [] e.kind = "sec" -> e.ok = (Len(b) = 64 /\ Lt(FromBytes(SubSeq(b, 1, 32)), LL)) /\ (e.ok => e.out = b)
